@@ -883,3 +883,275 @@ Proof.
     discriminate.
   - intros (He & H1 & H2 & Ht). apply entries_empty_range_panics; assumption.
 Qed.
+
+(* ---------- snapshot ---------- *)
+(* The private snapshot(): built at hard_state.commit, carries the term that
+   Storage::term reports for that index and the stored configuration. *)
+Lemma make_snapshot_ok : forall m,
+    RepInv m -> commit_ok (abs m) ->
+    exists t, storage_term m (hs_commit (hs m)) = Ok (SOk t)
+              /\ make_snapshot m = Ok (mkSnap (hs_commit (hs m)) t (cs m)).
+Proof.
+  intros m HI Hc. unfold commit_ok in Hc. cbn [abs sp_hs sp_snap_i sp_first] in Hc.
+  rewrite sp_next_abs in Hc. unfold make_snapshot.
+  destruct Hc as [Hc|Hc].
+  - exists (snap_term m). rewrite Hc at 1. split; [apply term_at_snapshot; exact HI|].
+    rewrite Hc, N.compare_refl. cbn [bind]. rewrite <- Hc. reflexivity.
+  - destruct (term_entry m _ HI Hc) as (e & He & Hix & Ht).
+    exists (e_term e). split; [exact Ht|].
+    destruct HI as (HIc & HIs & HIb).
+    destruct (N.compare_spec (hs_commit (hs m)) (snap_index m)) as [H|H|H]; [lia|lia|].
+    destruct (entries m) as [|e0 l] eqn:El.
+    { rewrite (entries_nil_next m El) in Hc. lia. }
+    rewrite (entries_head_index m e0 l El).
+    destruct (hs_commit (hs m) <? first_of m) eqn:E; [lia|].
+    unfold entry_at in He. rewrite E, El in He. unfold idx. rewrite He. reflexivity.
+Qed.
+
+Lemma make_snapshot_panics : forall m,
+    RepInv m -> ~ commit_ok (abs m) -> exists s, make_snapshot m = Panic s.
+Proof.
+  intros m HI Hc. unfold commit_ok in Hc. cbn [abs sp_hs sp_snap_i sp_first] in Hc.
+  rewrite sp_next_abs in Hc. unfold make_snapshot.
+  destruct (N.compare_spec (hs_commit (hs m)) (snap_index m)) as [H|H|H].
+  - exfalso. apply Hc. left. exact H.
+  - eexists. reflexivity.
+  - destruct (entries m) as [|e0 l] eqn:El; [eexists; reflexivity|].
+    rewrite (entries_head_index m e0 l El).
+    destruct (hs_commit (hs m) <? first_of m) eqn:E; [eexists; reflexivity|].
+    unfold idx.
+    destruct (nth_error (e0 :: l) (N.to_nat (hs_commit (hs m) - first_of m))) eqn:En;
+      [|eexists; reflexivity].
+    exfalso. apply Hc. right.
+    assert (Hlt : (N.to_nat (hs_commit (hs m) - first_of m) < length (e0 :: l))%nat).
+    { apply nth_error_Some. congruence. }
+    unfold next_of. rewrite El. lia.
+Qed.
+
+Theorem make_snapshot_ok_iff : forall m,
+    RepInv m -> ((exists s, make_snapshot m = Ok s) <-> commit_ok (abs m)).
+Proof.
+  intros m HI. split.
+  - intros [s Hs].
+    assert (Hd : commit_ok (abs m) \/ ~ commit_ok (abs m)).
+    { unfold commit_ok. lia. }
+    destruct Hd as [Hd|Hd]; [exact Hd|].
+    destruct (make_snapshot_panics m HI Hd) as [p Hp]. congruence.
+  - intros Hc. destruct (make_snapshot_ok m HI Hc) as (t & _ & H). eauto.
+Qed.
+
+(* Storage::snapshot(request_index, to) *)
+Theorem snapshot_spec : forall m req to,
+    RepInv m -> commit_ok (abs m) ->
+    (trig_snap m = true ->
+       storage_snapshot m req to
+       = Ok (set_trig_snap m false, SErr SnapshotTemporarilyUnavailable))
+    /\ (trig_snap m = false ->
+        exists s t, storage_snapshot m req to = Ok (m, SOk s)
+          /\ storage_term m (hs_commit (hs m)) = Ok (SOk t)
+          /\ s_term s = t
+          /\ s_cs s = cs m
+          /\ s_index s = N.max (hs_commit (hs m)) req
+          /\ req <= s_index s).
+Proof.
+  intros m req to HI Hc. unfold storage_snapshot. split; intros Ht; rewrite Ht.
+  - reflexivity.
+  - destruct (make_snapshot_ok m HI Hc) as (t & Hterm & Hs).
+    rewrite Hs. cbn [bind s_index s_term s_cs].
+    destruct (hs_commit (hs m) <? req) eqn:E.
+    + exists (mkSnap req t (cs m)), t. cbn [s_index s_term s_cs]. repeat split; try assumption; lia.
+    + exists (mkSnap (hs_commit (hs m)) t (cs m)), t. cbn [s_index s_term s_cs].
+      repeat split; try assumption; lia.
+Qed.
+
+(* ================================================================== *)
+(* Refinement of every operation, and histories                        *)
+(* ================================================================== *)
+
+Lemma abs_set_hs : forall m h, abs (set_hs m h) = sp_set_hs (abs m) h.
+Proof. reflexivity. Qed.
+Lemma abs_set_cs : forall m c, abs (set_cs m c) = sp_set_cs (abs m) c.
+Proof. reflexivity. Qed.
+
+Lemma commit_to_refines : forall m i,
+    RepInv m -> first_of m <= i < next_of m ->
+    exists m', commit_to m i = Ok m' /\ RepInv m' /\ abs m' = spec_commit_to (abs m) i
+               /\ hs_commit (hs m') = i.
+Proof.
+  intros m i HI Hr. destruct (commit_to_ok m i HI Hr) as (e & He & Hc).
+  eexists. split; [exact Hc|]. split; [|split; [|reflexivity]].
+  - eapply RepInv_ext; [| |exact HI]; reflexivity.
+  - unfold spec_commit_to. rewrite sp_entry_at_abs, He. reflexivity.
+Qed.
+
+(* Every operation, under its precondition, returns without panicking,
+   preserves the representation invariant and commutes with the list-level
+   specification. *)
+Theorem mem_refines : forall m o,
+    RepInv m -> spre (abs m) o ->
+    exists m' r, step m o = Ok (m', r) /\ RepInv m' /\ abs m' = spec_step (abs m) o.
+Proof.
+  intros m o HI Hp.
+  assert (Hsame : forall m', entries m' = entries m -> snap_index m' = snap_index m -> RepInv m').
+  { intros m' H1 H2. eapply RepInv_ext; eauto. }
+  destruct o; cbn [step spec_step spre] in *.
+  - (* set_hardstate *) eexists _, _. split; [reflexivity|]. split; [apply Hsame; reflexivity|reflexivity].
+  - (* set_commit *) eexists _, _. split; [reflexivity|]. split; [apply Hsame; reflexivity|reflexivity].
+  - (* commit_to *)
+    rewrite sp_next_abs in Hp. cbn [abs sp_first] in Hp.
+    destruct (commit_to_refines m i HI Hp) as (m' & Hc & HI' & Ha & _).
+    unfold ok_unit. rewrite Hc. cbn [bind]. eauto.
+  - (* set_conf_state *) eexists _, _. split; [reflexivity|]. split; [apply Hsame; reflexivity|reflexivity].
+  - (* apply_snapshot *)
+    cbn [abs sp_first].
+    destruct (s_index s <? first_of m) eqn:E.
+    + rewrite (apply_snapshot_out_of_date m s HI ltac:(lia)). cbn [bind fst snd map_sres].
+      eexists _, _. split; [reflexivity|]. split; [exact HI|reflexivity].
+    + destruct (apply_snapshot_ok m s HI ltac:(lia) Hp) as (Ha & HI').
+      rewrite Ha. cbn [bind fst snd map_sres].
+      eexists _, _. split; [reflexivity|]. split; [exact HI'|reflexivity].
+  - (* compact *)
+    rewrite sp_next_abs in Hp. cbn [abs sp_first] in *.
+    destruct (i <=? first_of m) eqn:E.
+    + unfold ok_unit. rewrite (compact_noop m i HI ltac:(lia)). cbn [bind].
+      eexists _, _. split; [reflexivity|]. split; [exact HI|reflexivity].
+    + destruct (compact_ok m i HI ltac:(lia) ltac:(lia)) as (Hc & HI' & Hfo).
+      unfold ok_unit. rewrite Hc. cbn [bind].
+      eexists _, _. split; [reflexivity|]. split; [exact HI'|].
+      unfold abs. rewrite Hfo. reflexivity.
+  - (* append *)
+    destruct ents as [|n0 t].
+    + eexists _, _. split; [reflexivity|]. split; [exact HI|reflexivity].
+    + rewrite sp_next_abs in Hp. cbn [abs sp_first] in *. destruct Hp as (Hc & Hr & Hb).
+      destruct (append_ok m n0 t HI Hc Hr Hb) as (Ha & HI' & Hfo).
+      unfold ok_unit. rewrite Ha. cbn [bind].
+      eexists _, _. split; [reflexivity|]. split; [exact HI'|].
+      unfold abs. rewrite Hfo. reflexivity.
+  - (* commit_to_and_set_conf_states *)
+    rewrite sp_next_abs in Hp. cbn [abs sp_first] in Hp.
+    destruct (commit_to_refines m i HI Hp) as (m' & Hc & HI' & Ha & _).
+    unfold ok_unit, commit_to_and_set_conf_states. rewrite Hc. cbn [bind].
+    destruct c as [c|]; cbn [bind].
+    + eexists _, _. split; [reflexivity|].
+      split; [eapply RepInv_ext; [| |exact HI']; reflexivity|].
+      rewrite abs_set_cs, Ha. reflexivity.
+    + eauto.
+  - (* trigger_snap_unavailable *) eexists _, _. split; [reflexivity|]. split; [apply Hsame; reflexivity|reflexivity].
+  - (* trigger_log_unavailable *) eexists _, _. split; [reflexivity|]. split; [apply Hsame; reflexivity|reflexivity].
+  - (* take_get_entries_context *) eexists _, _. split; [reflexivity|]. split; [apply Hsame; reflexivity|reflexivity].
+  - (* initialize_with_conf_state *)
+    cbn [abs sp_cs] in Hp. unfold ok_unit, initialize_with_conf_state, initialized.
+    rewrite Hp. cbn [negb bind].
+    eexists _, _. split; [reflexivity|]. split; [apply Hsame; reflexivity|reflexivity].
+  - (* initial_state *) eexists _, _. split; [reflexivity|]. split; [exact HI|reflexivity].
+  - (* entries *)
+    rewrite sp_next_abs in Hp. cbn [abs sp_first sp_ents] in Hp.
+    destruct (low <? first_of m) eqn:E.
+    + rewrite (entries_compacted m low high max ctx HI ltac:(lia)). cbn [bind fst snd].
+      eexists _, _. split; [reflexivity|]. split; [exact HI|reflexivity].
+    + destruct Hp as [Hp|((H1 & H2) & Hne)]; [lia|].
+      destruct (trig_log m && can_async ctx) eqn:Et.
+      * rewrite (entries_log_unavailable m low high max ctx HI ltac:(lia) H2 Et).
+        cbn [bind fst snd].
+        eexists _, _. split; [reflexivity|]. split; [apply Hsame; reflexivity|reflexivity].
+      * rewrite (entries_eq m low high max ctx HI Hne ltac:(lia) H1 H2 Et).
+        cbn [bind fst snd].
+        eexists _, _. split; [reflexivity|]. split; [exact HI|reflexivity].
+  - (* term *)
+    rewrite (term_spec m i HI). cbn [bind].
+    eexists _, _. split; [reflexivity|]. split; [exact HI|reflexivity].
+  - (* first_index *)
+    unfold storage_first_index. rewrite (first_index_ok m HI). cbn [bind].
+    eexists _, _. split; [reflexivity|]. split; [exact HI|reflexivity].
+  - (* last_index *) eexists _, _. split; [reflexivity|]. split; [exact HI|reflexivity].
+  - (* snapshot *)
+    destruct (snapshot_spec m request_index to HI Hp) as (Ht & Hf).
+    destruct (trig_snap m) eqn:E.
+    + rewrite (Ht eq_refl). cbn [bind fst snd].
+      eexists _, _. split; [reflexivity|]. split; [apply Hsame; reflexivity|reflexivity].
+    + destruct (Hf eq_refl) as (s & t & Hs & _). rewrite Hs. cbn [bind fst snd].
+      eexists _, _. split; [reflexivity|]. split; [exact HI|reflexivity].
+  - (* hard_state *) eexists _, _. split; [reflexivity|]. split; [exact HI|reflexivity].
+Qed.
+
+(* a history is admissible when every operation meets its precondition in the
+   specification state reached so far *)
+Fixpoint spres (s : spec) (ops : list op) : Prop :=
+  match ops with
+  | [] => True
+  | o :: rest => spre s o /\ spres (spec_step s o) rest
+  end.
+
+Theorem history_refines : forall ops m,
+    RepInv m -> spres (abs m) ops ->
+    exists m', run m ops = Ok m' /\ RepInv m'
+               /\ abs m' = fold_left spec_step ops (abs m).
+Proof.
+  induction ops as [|o rest IH]; intros m HI Hp; cbn [run fold_left spres] in *.
+  - eauto.
+  - destruct Hp as [Hp Hrest].
+    destruct (mem_refines m o HI Hp) as (m1 & r & Hs & HI1 & Ha).
+    rewrite Hs. cbn [bind fst]. rewrite <- Ha in *.
+    exact (IH m1 HI1 Hrest).
+Qed.
+
+Definition spec_new : spec := mkSpec 0 0 1 [] hs_default cs_default.
+
+Lemma abs_new : abs new = spec_new.
+Proof. reflexivity. Qed.
+
+(* spec-level answers of the queries *)
+Definition spec_term (s : spec) (i : N) : sres N :=
+  if i =? sp_snap_i s then SOk (sp_snap_t s)
+  else if i <? sp_first s then SErr Compacted
+  else match sp_entry_at s i with
+       | Some e => SOk (e_term e)
+       | None => SErr Unavailable
+       end.
+
+Definition spec_range (s : spec) (lo hi : N) : list entry :=
+  firstn (N.to_nat (hi - lo)) (skipn (N.to_nat (lo - sp_first s)) (sp_ents s)).
+
+Lemma term_refines : forall m i, RepInv m -> storage_term m i = Ok (spec_term (abs m) i).
+Proof. intros m i HI. exact (term_spec m i HI). Qed.
+
+Lemma range_refines : forall m lo hi, range_of m lo hi = spec_range (abs m) lo hi.
+Proof. reflexivity. Qed.
+
+(* History theorem from MemStorage::new(): any admissible sequence of
+   operations runs without panic, ends in a state satisfying the invariant whose
+   abstraction is the fold of the specification steps, and there every query
+   answers as the specification state does. *)
+Theorem history_from_new : forall ops,
+    spres spec_new ops ->
+    exists m, run new ops = Ok m /\ RepInv m
+      /\ abs m = fold_left spec_step ops spec_new
+      /\ spec_wf (abs m)
+      /\ storage_first_index m = Ok (sp_first (abs m))
+      /\ storage_last_index m + 1 = sp_next (abs m)
+      /\ (forall i, storage_term m i = Ok (spec_term (abs m) i))
+      /\ (forall lo hi max ctx,
+            sp_ents (abs m) <> [] -> sp_first (abs m) <= lo -> lo <= hi ->
+            hi <= sp_next (abs m) -> trig_log m && can_async ctx = false ->
+            storage_entries m lo hi max ctx
+            = Ok (m, SOk (limit_size (spec_range (abs m) lo hi) max))).
+Proof.
+  intros ops Hp. rewrite <- abs_new in Hp.
+  destruct (history_refines ops new new_RepInv Hp) as (m & Hr & HI & Ha).
+  exists m. rewrite abs_new in Ha.
+  split; [exact Hr|]. split; [exact HI|]. split; [exact Ha|].
+  split; [apply abs_wf; exact HI|].
+  split; [apply first_index_spec; exact HI|].
+  split; [apply last_index_spec; exact HI|].
+  split; [intros i; apply term_refines; exact HI|].
+  intros lo hi max ctx Hne H1 H2 H3 Ht.
+  rewrite <- range_refines. apply entries_eq; assumption.
+Qed.
+
+(* the same from new_with_conf_state *)
+Lemma new_with_conf_state_ok : forall c,
+    new_with_conf_state c = Ok (set_cs new c) /\ RepInv (set_cs new c).
+Proof.
+  intros c. split; [reflexivity|].
+  eapply RepInv_ext; [| |exact new_RepInv]; reflexivity.
+Qed.
